@@ -794,3 +794,18 @@ v("c20-required-deprecated-by-truthiness", "C20", "OPTIONAL-TRUTHINESS", T + "va
   "                if is_required_argument(arg) and arg.deprecation_reason is not None:\n", "                if is_required_argument(arg) and arg.deprecation_reason:\n")
 v("c20-sdl-flag-becomes-schema-flag", "C20", "ASSUME-VALID-FRESH", U + "build_ast_schema.py",
   "        empty_schema_kwargs, document_ast, assume_valid\n", "        empty_schema_kwargs, document_ast, assume_valid or assume_valid_sdl\n")
+
+# -- round 5: C19 ------------------------------------------------------------------------------------------
+v("c19-empty-description-dropped-in-kwargs", "C19", "OPTIONAL-TRUTHINESS", T + "definition.py",
+  "            name=self.name,\n            description=self.description,\n            extensions=self.extensions,\n            ast_node=self.ast_node,\n            extension_ast_nodes=self.extension_ast_nodes,\n",
+  "            name=self.name,\n            description=self.description or None,\n            extensions=self.extensions,\n            ast_node=self.ast_node,\n            extension_ast_nodes=self.extension_ast_nodes,\n")
+v("c19-extension-input-fields-built-eagerly", "C19", "LAZY-THUNKS", U + "extend_schema.py",
+  "                return merge_kwargs(\n                    config,\n                    fields=lambda: {\n                        **config[\"fields\"](),\n                        **build_input_field_map(extensions),\n                    },\n",
+  "                extension_fields = build_input_field_map(extensions)\n                return merge_kwargs(\n                    config,\n                    fields=lambda: {**config[\"fields\"](), **extension_fields},\n")
+v("c19-sorted-input-fields-eager", "C19", "LAZY-THUNKS", U + "lexicographic_sort_schema.py",
+  "                    \"fields\": lambda: sort_obj_map(config[\"fields\"]()),\n                },\n                SchemaElementKind.DIRECTIVE:",
+  "                    \"fields\": sort_obj_map(config[\"fields\"]()),\n                },\n                SchemaElementKind.DIRECTIVE:")
+v("c19-extension-thunk-as-local-def", "C19", "LAZY-THUNKS", U + "extend_schema.py",
+  "                return merge_kwargs(\n                    config,\n                    fields=lambda: {\n                        **config[\"fields\"](),\n                        **build_input_field_map(extensions),\n                    },\n",
+  "                def fields() -> dict:\n                    return {**config[\"fields\"](), **build_input_field_map(extensions)}\n\n                return merge_kwargs(\n                    config,\n                    fields=fields,\n",
+  expect="silent")
